@@ -12,6 +12,11 @@ FILES = ["src/quantity.rs", "src/si/angle.rs", "src/si/ratio.rs", "src/system.rs
 STRUCT_RE = re.compile(r"^(?:Self|Quantity|\$quantity)\{dimension:\$?crate::lib::marker::PhantomData,units:\$?crate::lib::marker::PhantomData,value:(.*?),?\}$")
 WRAPS = [("Self::new::<N>", re.compile(r"^Self::new::<N>\((.*)\)$")), ("Angle::new::<radian>", re.compile(r"^Angle::new::<radian>\((.*)\)$")),
          ("Ratio::new::<ratio>", re.compile(r"^Ratio::new::<ratio>\((.*)\)$")), ("into", re.compile(r"^(.*)\.into\(\)$"))]
+UPDATE_RE = re.compile(r"^Quantity\{value:(.*),\.\.self\}$")
+SUM_RE = re.compile(r"^iter\.map\(\|(\w+)\|\{?\1\.value\}?\)\.sum\(\)$")
+STATIC_RE = re.compile(r"^V::(\w+)\(\)$")
+DESER_RE = re.compile(r"^let(\w+):V=\$crate::serde::Deserialize::deserialize\((\w+)\)\?;Ok\(Quantity\{dimension:\$crate::lib::marker::PhantomData,units:\$crate::lib::marker::PhantomData,value(?::\1)?,?\}\)$")
+DESER2_RE = re.compile(r"^let(\w+):Result<V,De::Error>=\$crate::serde::Deserialize::deserialize\((\w+)\);\1\.map\(\|(\w+)\|Quantity\{dimension:\$crate::lib::marker::PhantomData,units:\$crate::lib::marker::PhantomData,(?:value:\3|\3),?\}\)$")
 CORE_RE = re.compile(r"^(self\.value|self\.get::<N>\(\))\.(\w+)\((.*)\)$")
 NEG_RE = re.compile(r"^-(self\.value)$")
 
@@ -57,6 +62,17 @@ def _fns(path):
 
 def classify(body):
     wrap = ""
+    body = body[:-1] if body.endswith(";") else body
+    m = DESER_RE.match(body)
+    if m:
+        return "Ok(struct)", "Deserialize", "deserialize", m.group(2)
+    m = DESER2_RE.match(body)
+    if m:
+        return "Ok(struct)", "Deserialize", "deserialize", m.group(2)       # the same thing through Result::map
+    m = UPDATE_RE.match(body)
+    if m:
+        w, r, me, a = classify(m.group(1))
+        return ("update" if w == "" else "update+" + w), r, me, a
     m = STRUCT_RE.match(body)
     if m:
         wrap, body = "struct", m.group(1)
@@ -72,6 +88,12 @@ def classify(body):
     m = NEG_RE.match(body)
     if m:
         return wrap, m.group(1), "neg", ""
+    m = SUM_RE.match(body)
+    if m:
+        return wrap, "iter.map(value)", "sum", ""
+    m = STATIC_RE.match(body)
+    if m:
+        return wrap, "V", m.group(1), ""
     return wrap, "?", "?", body[:120]
 
 
@@ -80,8 +102,12 @@ WANTED = {
     "src/si/angle.rs": ["cos", "cosh", "sin", "sinh", "tan", "tanh", "atan2"],
     "src/si/ratio.rs": ["acos", "acosh", "asin", "asinh", "atan", "atanh", "exp", "exp2", "ln", "log", "log2", "log10", "exp_m1", "ln_1p"],
     "src/system.rs": ["classify", "abs", "signum", "is_sign_positive", "is_sign_negative", "recip", "max", "min", "is_nan", "is_infinite", "is_finite", "is_normal",
-                      "cbrt", "powi", "sqrt", "neg"],
+                      "cbrt", "powi", "sqrt", "neg",
+                      "saturating_add", "saturating_sub", "sum", "zero", "is_zero", "default", "hash", "cmp", "serialize", "deserialize"],
 }
+
+
+FORWARDED = ("saturating_add", "saturating_sub", "sum", "zero", "is_zero", "default", "hash", "cmp", "serialize", "deserialize")
 
 
 def translate(repo):
@@ -90,7 +116,8 @@ def translate(repo):
         for name, is_pub, params, body, line in _fns(os.path.join(repo, rel)):
             if name not in WANTED[rel]:
                 continue
-            if not is_pub and not (rel == "src/system.rs" and name in ("neg", "max", "min")):
+            if not is_pub and not (rel == "src/system.rs" and name in ("neg", "max", "min", "saturating_add", "saturating_sub", "sum", "zero", "is_zero",
+                                                                        "default", "hash", "cmp", "serialize", "deserialize")):
                 continue        # test helpers of the same name
             if rel == "src/system.rs" and name in ("max", "min") and "self.value" not in body:
                 continue
@@ -107,6 +134,14 @@ def translate(repo):
             if name in ("new", "get"):
                 continue
             w, r, m_, a = classify(body)
+            if name in FORWARDED:
+                # the parameters' names are not part of the meaning: positional
+                k = 0
+                for part in params.split(","):
+                    if ":" in part and not part.startswith(("self", "&self", "mutself", "&mutself")):
+                        k += 1
+                        pn = part.split(":")[0].replace("mut", "", 1) if part.startswith("mut") else part.split(":")[0]
+                        a = re.sub(r"(?<![\w.])" + re.escape(pn) + r"(?!\w)", f"_{k}", a)
             rows.append({"file": rel, "line": line, "fn": name, "wrap": w, "recv": r, "meth": m_, "args": a})
     return rows
 
